@@ -62,6 +62,7 @@ def shards(tier, seed):
     for j in range(4):
         out.append({'name': f'dfs{j}', 'what': 'dfs', 'mod': 4, 'rem': j, **lim})
     out.append({'name': 'real', 'what': 'real', **lim})
+    out.append({'name': 'slow', 'what': 'slow', **lim})
     out.append({'name': 'proc', 'what': 'proc', **lim})
     return out
 
@@ -108,6 +109,8 @@ def run_shard(spec, res):
                 res.count('dfs_scenarios')
     elif what == 'real':
         run_real(spec, res)
+    elif what == 'slow':
+        run_slow_consumer(spec, res)
     else:
         run_proc(spec, res)
 
@@ -129,6 +132,24 @@ def run_real(spec, res):
         mp, ms = conc.readahead(sc, r)
         res.maximum(f'real_pulled_minus_delivered:{entry}:b{b}', mp)
         res.case(('real', conc.trace_hash(r['events'])), mp >= b)
+
+
+def run_slow_consumer(spec, res):
+    """Real threads, a consumer that needs ~0.3 s per example while the source
+    is instantaneous: the read-ahead must not grow with the waiting time."""
+    from .. import realthreads as rt
+    conc.env(shim=False)
+    for entry, b, w in (('stp', 1, 1), ('pf1', 2, 1), ('lpm', 2, 2), ('pft', 2, 2),
+                        ('parmap', 3, 2)):
+        sc = cs.make(entry, 12, b, w)
+        sc['consumer_wait'] = 0.3
+        sc['stop'] = ['close', 5]
+        r = rt.run(sc, 7)
+        res.count('slow_consumer_executions')
+        conc.judge_readahead(sc, r, res, inflight=1)
+        mp, ms = conc.readahead(sc, r)
+        res.maximum(f'slow_consumer_pulled_minus_delivered:{entry}:b{b}', mp)
+        res.case(('slow', entry, b, w), True)
 
 
 def run_proc(spec, res):
